@@ -38,12 +38,12 @@ CLAIMED.update({
         "Trusted: the evaluator's statement subset (anything outside it is reported undecided), xterm's PC-style modifier encoding (1 + bitmask) and function-key alias offsets frozen in the checker.",
     ),
     "C14": (
-        "constant extraction of all database literals, reference terminfo(5) parser, call-site arity derivation, ownership rule on *Terminfo stores (SSA), lock dominance on the registry",
+        "constant extraction of all database literals, reference terminfo(5) parser, call-site arity derivation (through wrappers and local tables), ownership rule on *Terminfo stores (SSA), lock dominance and key provenance on the registry, control dependence of the synthesis blocks, value flow from lookups to registrations",
         "Decided exhaustively over all entries x fields (constants of the source): literal entries, unique names/aliases, aggregate imports, two-parameter cursor addressing, well-formed programs within the parameters supplied at the library's TParm call sites, colour-count consistency, prefix-free key tables. Lookup stability is decided as an ownership rule on all paths (no store through a *Terminfo that may alias a registered entry), plus synthesised strings denoting the standard SGR forms for every index, ErrTermNotFound on failure, documented environment constants, registration and map access under the mutex. The infocmp loader and environment-dependent behaviour are not decided.",
         "Trusted: reference terminfo(5) parser/interpreter and ECMA-48 tokenizer in the checker (self-tested on every run), go/types constant evaluation.",
     ),
     "C15": (
-        "reference terminfo(5) interpreter applied to source constants: exhaustive evaluation of cup over the position grid and of colour programs over all indices per entry; SSA shape rules for TGoto/TColor/TPuts",
+        "reference terminfo(5) interpreter applied to source constants (exhaustive evaluation of cup over the position grid and of colour programs over all indices per entry); constant evaluation of TColor over colour counts x index grid and of a %d helper over a number range (SSA-level constant propagation with modelled calls); scanner automaton of the padding grammar in lockstep with the reference automaton; SSA rules for TGoto and for TPuts' marker searches (strings.Index or strings.Cut)",
         "For each of the 49 entries the cursor-addressing constant is evaluated by an independent reference interpreter over rows x columns 0..300 (quick: 30 rows/cols x all; thorough: the full grid) and must equal the string its addressing convention defines; colour programs are evaluated for every index below the colour count and must denote that palette entry; TGoto's argument order, TColor's folding/range comparisons and TPuts' bounds and progress are checked on SSA. This decides the data and the argument plumbing, given a TParm that implements terminfo(5) (C07); the padding grammar is not decided.",
         "Trusted: the reference interpreter (written from terminfo(5), self-tested), the three addressing conventions and SGR colour forms frozen in the checker.",
     ),
@@ -51,7 +51,7 @@ CLAIMED.update({
 
 CLAIMED.update({
     "C07": (
-        "SSA pattern rules on TParm and its stack (dispatch exhaustiveness, operand order, guards, loop termination, index bounds) + exhaustive parse of every parameterised constant with the reference terminfo(5) parser",
+        "SSA rules on TParm and its stack, reader/writer/pops identified by role, helpers and constant tables of function literals looked through (dispatch exhaustiveness, operand order, guards, loop termination, index bounds, operand coercion of formatted conversions); constant evaluation of a %d helper over a number range; exhaustive parse of every parameterised constant with the reference terminfo(5) parser",
         "Structural necessary conditions on the interpreter (all paths) and exhaustive conditions on the data it is fed: the %-dispatch covers the terminfo(5) alphabet; each binary operator applies the matching Go operator to (second pop, first pop) with zero-guarded division; stack coercions and empty-stack behaviour have the specified shape; the skip scanner tracks nested conditionals; every loop terminates at end of input; array indices are guarded; and every parameterised string in the 49 entries and in the library's literals is a well-formed program using only implemented operators and supplied parameters. It does not decide the value each handler computes on arbitrary programs (printf details, %c of unusual values, static variables).",
         "Trusted: the operator alphabet frozen from terminfo(5); reference parser (self-tested); go/ssa.",
     ),
@@ -79,12 +79,12 @@ CLAIMED.update({
         "Trusted: go/ssa. The sibling loop in SimulationScreen.InjectKeyBytes is decided under C18.",
     ),
     "C13": (
-        "guard dominance of every emission by the Dirty edge, enumeration of force-dirty sites reachable from Show through the call graph with an edge-sensitive 'size differs' must-fact, who-may-call the raw writer",
+        "guard dominance of every emission by the Dirty edge, enumeration of force-dirty sites by the entry points that reach them through the call graph (repaint-by-contract table, edge-sensitive 'size differs' must-fact, value-changed guards), gate flags between draw and the cell loop, who-may-call the raw writer",
         "Structural necessary conditions on all paths: every emission of both painters is dominated by the true edge of Dirty and the clean-mark is tied to the payload write; every force-dirty site reachable from Show is behind resize()'s size-changed test or is one of the two documented neighbour sites (any other site makes every Show repaint unchanged cells); payload is written only by drawCell; LockRegion dispatches on its flag. 'Exactly the changed set' over histories is not decided.",
         "Trusted: go/ssa; the two documented neighbour sites are recognised by shape (x+1 under width>1; x-1 inside the corner-trick closure).",
     ),
     "C18": (
-        "sibling rules of C11/C13/C01 applied to simscreen: loop bound, nSrc provenance, reachability of a posted resize event from SetSize, dirty gate, Sync ordering",
+        "sibling rules of C11/C13/C01/C17 applied to simscreen and cross-checked against tScreen (failure predicate, fallback consulted for the main rune only): loop bound, nSrc provenance, reachability of a posted resize event from SetSize, dirty gate, Sync ordering, storage ownership of cell bytes and of the resized array",
         "Thin structural necessary conditions for the test double: InjectKeyBytes' prefix loop includes len(b) and advances by nSrc; SetSize of each backend reaches a posted EventResize without pre-empting the size comparison; painter dirty-gated, clean after write, Sync clears and invalidates first, last-column wide rune blanked, four-sided cursor test. Fidelity over histories and byte-level agreement with the real fallback chain are not decided; the simulator's locking is decided under C10.",
         "Trusted: go/ssa.",
     ),
@@ -102,7 +102,7 @@ CLAIMED.update({
         "Assumes the documented Tty contract. Trusted: go/ssa, the twelve-row pairing table in checker/c04.go.",
     ),
     "C12": (
-        "constant extraction of the button/modifier table from the AST compared with the xterm protocol table; linear-form normalisation of the values handed to buildMouseEvent; guard rules on the press-flag stores",
+        "constant evaluation of buildMouseEvent over all 256 button codes (SSA-level constant propagation; the AST table reading as fallback) compared with the xterm protocol table; linear-form normalisation of the values handed to buildMouseEvent; guard and consumption rules on the two mouse parsers",
         "Table agreement and normalisation decided exhaustively on the code: button mask and six button codes, three modifier bits, clip as mandatory sanitiser with clamp values, SGR value-1 / motion bit cleared, X11 byte-33 coordinates and byte-32 button (sibling agreement of the two parsers), release and button-less motion clear the button bits, press flag set/cleared on the right edges, both introducers accepted. The press/drag/release protocol over report sequences and multi-digit parsing correctness are not decided.",
         "Trusted: the xterm ctlseqs mouse encoding frozen in the checker; go/types constant evaluation.",
     ),
